@@ -8,6 +8,7 @@ import Driver.Persist
 import Driver.QParser
 import Driver.Query
 import Driver.Reads
+import Driver.ResultSet
 import Driver.Widcode
 open Driver
 
@@ -21,6 +22,7 @@ def sessions : List (String × Sess) := [
   ("qparser", QParserS.sess),
   ("query", QueryS.sess),
   ("reads", ReadsS.sess),
+  ("resultset", ResultSetS.sess),
   ("widcode", WidcodeS.sess)
 ]
 
